@@ -185,14 +185,15 @@ func c19ctlGen(r *rand.Rand, thorough bool, emit func(c, cat string)) {
 
 // upstream that answers the one question of a scenario after a delay and keeps a log
 type c19up struct {
-	mu      sync.Mutex
-	name    string
-	mode    int
-	delay   time.Duration
-	primed  bool
-	calls   int
-	cur     int
-	maxConc int
+	mu       sync.Mutex
+	name     string
+	mode     int
+	negRcode int
+	delay    time.Duration
+	primed   bool
+	calls    int
+	cur      int
+	maxConc  int
 }
 
 func (u *c19up) ExchangeContext(ctx context.Context, m []byte) (*dnsmsg.Msg, error) {
@@ -228,7 +229,9 @@ func (u *c19up) ExchangeContext(ctx context.Context, m []byte) (*dnsmsg.Msg, err
 	case 0:
 		return c08mkMsg(u.name, q.Id, 0, false, []c08rr{{1, 4}}, nil, []c08rr{{41, 0}}), nil
 	case 2:
-		return c08mkMsg(u.name, q.Id, 3, false, nil, nil, nil), nil
+		// an error answer: NXDOMAIN, or (every other scenario) REFUSED / NOTIMP — every rcode other than 0 is a
+		// negative answer, stored set-if-absent, so the prediction is the same
+		return c08mkMsg(u.name, q.Id, u.negRcode, false, nil, nil, nil), nil
 	}
 	return nil, errors.New("scripted failure")
 }
@@ -310,6 +313,7 @@ func c19probeStr(h c19hit) string {
 }
 
 // one attempt; ok=false when the schedule slipped by more than tol
+
 func c19scenarioOnce(mode, n, d int) (string, bool) {
 	const tol = 90 * time.Millisecond
 	r := c08newRouter(0, 1<<22)
@@ -320,7 +324,7 @@ func c19scenarioOnce(mode, n, d int) (string, bool) {
 		c08mu.Unlock()
 	}()
 	nonce := c08nonce.Add(1)
-	up := &c19up{name: c08name(nonce, 0), mode: mode, delay: time.Duration(d) * time.Millisecond}
+	up := &c19up{name: c08name(nonce, 0), mode: mode, delay: time.Duration(d) * time.Millisecond, negRcode: []int{5, 3, 4, 5}[(n+d/100)%4]}
 	r.SetUpstream("u", up)
 
 	// time 0 = 100 ms after a tick of the cache clock
